@@ -1,37 +1,12 @@
 # c01.py — C01: discrete-time offline evaluate() = rho, one pair per sample,
 # independent of the time column.
 import json
-import random
 from harness import fml
-from harness.common import Model, Report, run_impl, parse_fields, obligations, ensure_build, load_known, broken_obligation
-from harness import shrink
-
-PID = 'C01'
+from harness.common import parse_fields
+from harness.runner import Check, offline_case, time_column, need_vars, expect_vals
 
 
-def mk_case(f, cols, times, nvars):
-    data = {'time': list(times)}
-    for i in range(nvars):
-        data[fml.VARS[i]] = list(cols[i])
-    return {'monitor': 'discrete-offline', 'vars': fml.VARS[:nvars], 'spec': 'out = ' + fml.to_text(f),
-            'calls': [['evaluate', data]]}
-
-
-def time_column(rng, n, kind):
-    if kind == 0:
-        return list(range(n))
-    if kind == 1:
-        t, out = 0, []
-        for _ in range(n):
-            out.append(t)
-            t += rng.choice([1, 1, 2, 5, 0.5, 0.25])
-        return out
-    if kind == 2:
-        return [100 - 3 * i for i in range(n)]
-    return [rng.randint(-5, 5) for _ in range(n)]
-
-
-def feature_cover(rng):
+def feature_cover():
     """every operator x every boundary situation, one case each"""
     P = ('pred', 'geq', ('var', 0), ('const', 1))
     Q = ('pred', 'leq', ('var', 1), ('const', 2))
@@ -68,142 +43,62 @@ def feature_cover(rng):
     return out
 
 
-def gen_cases(rng, tier):
-    items = []
-    for (f, n) in feature_cover(rng):
-        items.append((f, n, 2, 0))
-    nrand = 700 if tier == 'quick' else 12000
-    for i in range(nrand):
-        nv = rng.choice([1, 2, 2, 3, 4])
-        d = rng.choice([1, 2, 2, 3, 3, 4] if tier == 'quick' else [1, 2, 3, 3, 4, 4, 5, 6])
-        g = fml.Gen(rng, nvars=nv, maxb=rng.choice([2, 3, 5]), fancy_arith=(rng.random() < 0.3))
-        f = g.formula(d)
-        if fml.size(f) > 60:
-            continue
-        n = rng.choice([1, 1, 2, 2, 3, 4, 5, 6, 8, 10, 15, 25, 40])
-        items.append((f, n, nv, rng.randrange(4)))
-    cases = []
-    for (f, n, nv, tk) in items:
-        nv = max(nv, (max(fml.fvars(f)) + 1) if fml.fvars(f) else 1)
-        cols = fml.gen_trace(rng, nv, n)
-        cases.append({'f': f, 'n': n, 'nv': nv, 'cols': cols, 'times': time_column(rng, n, tk)})
-    return cases
+class C01(Check):
+    PID = 'C01'
+    RULE = ('feature cover (every operator x boundary situation x n in {1,2,3,7}) then seeded random formulas of the full grammar; '
+            'non-trivial = formula with >= 3 nodes whose arithmetic is exact and for which impl, model and rho were compared on every sample; '
+            'distinct by (formula, data, time column)')
 
+    def gen_cases(self, rng, tier):
+        items = [(f, n, 2, 0) for (f, n) in feature_cover()]
+        nrand = 700 if tier == 'quick' else 12000
+        for i in range(nrand):
+            nv = rng.choice([1, 2, 2, 3, 4])
+            d = rng.choice([1, 2, 2, 3, 3, 4] if tier == 'quick' else [1, 2, 3, 3, 4, 4, 5, 6])
+            g = fml.Gen(rng, nvars=nv, maxb=rng.choice([2, 3, 5]), fancy_arith=(rng.random() < 0.3))
+            f = g.formula(d)
+            if fml.size(f) > 60:
+                continue
+            n = rng.choice([1, 1, 2, 2, 3, 4, 5, 6, 8, 10, 15, 25, 40])
+            items.append((f, n, nv, rng.randrange(4)))
+        cases = []
+        for (f, n, nv, tk) in items:
+            nv = need_vars(f, nv)
+            cases.append({'f': f, 'n': n, 'nv': nv, 'cols': fml.gen_trace(rng, nv, n), 'times': time_column(rng, n, tk)})
+        return cases
 
-def model_line(c):
-    return '(off std %s %d %s)' % (fml.to_sx(c['f']), c['n'], fml.trace_sx(c['cols']))
+    def model_lines(self, c):
+        return ['(off std %s %d %s)' % (fml.to_sx(c['f']), c['n'], fml.trace_sx(c['cols']))]
 
+    def impl_cases(self, c):
+        return [offline_case(c['f'], c['cols'], c['times'], c['nv'])]
 
-def judge(c, mres, ires):
-    """returns (verdict, detail). verdict in ok / dropped / violation / mismatch"""
-    m = parse_fields(mres)
-    if 'ERROR' in m:
-        return 'model-error', m['ERROR']
-    if m['EXACT'] != ['1']:
-        return 'dropped', None
-    rho = [fml.parse_val(x) for x in m['RHO']]
-    off = [fml.parse_val(x) for x in m['OFF']]
-    exp = [[t, v] for t, v in zip(c['times'], rho)]
-    exp = json.loads(json.dumps([[t, ('inf' if v == float('inf') else '-inf' if v == -float('inf') else v)] for t, v in exp]))
-    if ires['setup']['status'] != 'ok':
-        return 'violation', {'expected': exp, 'observed': ires['setup'], 'model': m['OFF']}
-    r = ires['calls'][0]
-    if r['status'] != 'ok':
-        return 'violation', {'expected': exp, 'observed': r, 'model': m['OFF']}
-    obs = json.loads(json.dumps(r['value']))
-    if obs != exp:
-        return 'violation', {'expected': exp, 'observed': obs, 'model': m['OFF']}
-    if off != rho:
-        return 'model-vs-spec', {'rho': m['RHO'], 'off': m['OFF']}
-    return 'ok', None
+    def judge(self, c, mlines, ires):
+        m = parse_fields(mlines[0])
+        if 'ERROR' in m:
+            return 'model-error', m['ERROR']
+        if m['EXACT'] != ['1']:
+            return 'dropped', None
+        rho = [fml.parse_val(x) for x in m['RHO']]
+        off = [fml.parse_val(x) for x in m['OFF']]
+        exp = json.loads(json.dumps([[t, v] for t, v in zip(c['times'], expect_vals(rho))]))
+        det = {'expected': {'source': 'rho(phi,w,t) of Rho.v, one [time, value] pair per sample', 'values': exp}, 'model': m['OFF']}
+        i = ires[0]
+        if i['setup']['status'] != 'ok':
+            return 'violation', dict(det, observed=i['setup'])
+        r = i['calls'][0]
+        if r['status'] != 'ok':
+            return 'violation', dict(det, observed=r)
+        obs = json.loads(json.dumps(r['value']))
+        if obs != exp:
+            return 'violation', dict(det, observed=obs)
+        if off != rho:
+            return 'model-vs-spec', {'rho': m['RHO'], 'off': m['OFF']}
+        return 'ok', None
 
-
-def still_fails(model, c):
-    case = mk_case(c['f'], c['cols'], c['times'], c['nv'])
-    ires = run_impl([case])[0]
-    v, d = judge(c, model.one(model_line(c)), ires)
-    return v == 'violation', d
-
-
-def signature(c, detail):
-    """classify a (shrunk) failing case for the known-findings table"""
-    ops = fml.ops(c['f'])
-    sig = {'ops': sorted(ops), 'n': c['n']}
-    if isinstance(detail.get('observed'), dict):
-        sig['status'] = detail['observed'].get('status')
-        sig['kind'] = detail['observed'].get('kind')
-    return sig
+    def describe(self, c):
+        return {'spec': 'out = ' + fml.to_text(c['f']), 'n': c['n'], 'data': c['cols'], 'time': c['times']}
 
 
 def main(tier, seed, replay=None):
-    rep = Report(PID, tier, seed)
-    ok, log, _ = ensure_build()
-    obl = obligations(PID)
-    if not ok or not obl['ok']:
-        obl['log'] = (log[-1500:] if not ok else '') + obl['log']
-        obl['ok'] = False
-    rng = random.Random(seed)
-    model = Model()
-    if replay:
-        r = json.load(open(replay))
-        cs = [r['c']] if 'c' in r else []
-        cs = [dict(c, f=shrink.detuple(c['f'])) for c in cs]
-    else:
-        cs = gen_cases(rng, tier)
-    mres = model.batch([model_line(c) for c in cs])
-    ires = run_impl([mk_case(c['f'], c['cols'], c['times'], c['nv']) for c in cs])
-    stats = {'ok': 0, 'dropped': 0, 'violation': 0, 'model-error': 0, 'model-vs-spec': 0}
-    hist = {}
-    distinct = set()
-    failing = []
-    for c, m, i in zip(cs, mres, ires):
-        v, d = judge(c, m, i)
-        stats[v] += 1
-        if v == 'ok':
-            key = (fml.to_sx(c['f']), c['n'])
-            if fml.size(c['f']) >= 3 and key not in distinct:
-                distinct.add(key)
-            for o in fml.ops(c['f']):
-                hist[o] = hist.get(o, 0) + 1
-        elif v in ('violation', 'model-vs-spec', 'model-error'):
-            failing.append((c, v, d))
-    known = load_known(PID)
-    reported = set()
-    # shrink and report (at most a handful of distinct shrunk cases)
-    for (c, v, d) in failing[:40]:
-        if v != 'violation':
-            rep.violation({'kind': 'broken-machinery', 'what': v, 'c': c, 'detail': d}, suffix='no-failing-input-found')
-            continue
-        c2, d2 = shrink.shrink_case(c, lambda x: still_fails(model, x))
-        if d2 is None:
-            d2 = d
-        key = json.dumps([fml.to_sx(c2['f']), c2['n']])
-        if key in reported:
-            continue
-        reported.add(key)
-        sig = signature(c2, d2)
-        hit = None
-        for k in known:
-            if shrink.sig_match(k.get('signature', {}), sig):
-                hit = k
-        if hit is not None:
-            rep.known(hit)
-            continue
-        rep.violation({'kind': 'violation', 'c': c2, 'case': mk_case(c2['f'], c2['cols'], c2['times'], c2['nv']),
-                       'expected': {'source': 'rho(phi,w,t) of the specification layer (Rho.v), one pair per sample', 'values': d2['expected']},
-                       'observed': d2['observed'], 'model': d2['model'], 'signature': sig})
-        if len(rep.violations) >= 8:
-            break
-    if not obl['ok']:
-        if not rep.violations:
-            broken_obligation(rep, obl)
-    model.close()
-    samples = [{'spec': 'out = ' + fml.to_text(c['f']), 'n': c['n'], 'data': c['cols'], 'time': c['times']} for c in cs[-3:]]
-    cov = {
-        'evaluations': len(cs), 'distinct_nontrivial': len(distinct),
-        'rule': 'feature cover (every operator x boundary situation x n in {1,2,3,7}) then seeded random formulas of the full grammar; '
-                'a case counts as non-trivial when its formula has >= 3 nodes, the arithmetic is exact and impl, model and rho were compared on every sample; distinct by (formula, n)',
-        'samples': samples, 'traces_validated_against_impl': stats['ok'],
-        'dropped_as_indeterminate': stats['dropped'], 'operator_histogram': hist, 'verdicts': stats,
-    }
-    return rep.finish(obl, cov)
+    return C01().main(tier, seed, replay)
